@@ -107,7 +107,8 @@ var benign = entrySpec{Msg: "m", Desc: "m"}
 // that differs from the first (some findings need two different entries, whatever they contain).
 var benign2 = entrySpec{Msg: "n", Desc: "n"}
 
-// menu: 16 messages without field, 16 field names (value "v"), 16 field values (name "f"),
+// menu: 16 messages without field, 16 field names (value "v"), 16 field values (name "f"), two
+// word-like values, a last-sorting field with empty / blank value,
 // the two look-alike pairs chain=new / chain=end, and one entry with two fields (a, integrity):
 // 51 entries (message "m" without field is the benign entry).
 func buildMenu() []entrySpec {
@@ -128,6 +129,13 @@ func buildMenu() []entrySpec {
 	m = append(m, entrySpec{Msg: "m", Fields: [][2]string{{"chain", "new"}}, Desc: "field:chain=new"})
 	m = append(m, entrySpec{Msg: "m", Fields: [][2]string{{"chain", "end"}}, Desc: "field:chain=end"})
 	m = append(m, entrySpec{Msg: "m", Fields: [][2]string{{"a", "v"}, {"integrity", "v"}}, Desc: "fields:a+integrity"})
+	// string values that read as another JSON type once their quotes are removed (edit "unquote")
+	m = append(m, entrySpec{Msg: "m", Fields: [][2]string{{"f", "false"}}, Desc: "fvalue:false-word"})
+	m = append(m, entrySpec{Msg: "m", Fields: [][2]string{{"f", "12"}}, Desc: "fvalue:number-word"})
+	// a field that sorts after every field the formatters add themselves (the authenticated part
+	// then ends with this field), with an empty and with a blank value
+	m = append(m, entrySpec{Msg: "m", Fields: [][2]string{{"zz", ""}}, Desc: "lastfield:empty"})
+	m = append(m, entrySpec{Msg: "m", Fields: [][2]string{{"zz", " "}}, Desc: "lastfield:blank"})
 	return m
 }
 
@@ -447,6 +455,9 @@ type anatomy struct {
 var hexTag = regexp.MustCompile(`^[0-9a-f]{64}$`)
 var jsonTag = regexp.MustCompile(`"integrity":"([0-9a-f]{64})"`)
 
+// a string value that is a JSON number / literal when unquoted
+var jsonWordValue = regexp.MustCompile(`:"(-?[0-9]+|true|false|null)"`)
+
 const textToken = " integrity="
 const textMarker = " chain=new"
 
@@ -600,6 +611,19 @@ func applyEdit(p *produced, e editT) (out evalEdit, ok bool) {
 		} else {
 			out.deadline = last(e.Line+1, L-1)
 		}
+	case "unquote": // JSON: the e.Pos-th string value that reads as a number / true / false / null loses its quotes
+		if e.Line < 0 || e.Line >= L || p.s.Format != logging.JSONFormatString {
+			return out, false
+		}
+		m := jsonWordValue.FindAllStringSubmatchIndex(p.lines[e.Line], -1)
+		if e.Pos < 0 || e.Pos >= len(m) {
+			return out, false
+		}
+		l := p.lines[e.Line]
+		out.lines = cloneLines(p.lines)
+		out.lines[e.Line] = l[:m[e.Pos][2]-1] + l[m[e.Pos][2]:m[e.Pos][3]] + l[m[e.Pos][3]+1:]
+		out.region = "auth"
+		out.deadline = last(e.Line+1, L-1)
 	case "subst": // the whole line replaced by another line of the log
 		if e.Line < 0 || e.Line >= L || e.Other < 0 || e.Other >= L || e.Other == e.Line {
 			return out, false
@@ -658,6 +682,13 @@ func allEdits(p *produced) []editT {
 	for k := 0; k < L; k++ {
 		for i := 0; i < len(p.lines[k]); i++ {
 			es = append(es, editT{Kind: "flip", Line: k, Pos: i})
+		}
+	}
+	if p.s.Format == logging.JSONFormatString {
+		for k := 0; k < L; k++ {
+			for i := range jsonWordValue.FindAllStringIndex(p.lines[k], -1) {
+				es = append(es, editT{Kind: "unquote", Line: k, Pos: i})
+			}
 		}
 	}
 	return es
@@ -908,6 +939,8 @@ func describe(e editT) string {
 		return fmt.Sprintf("replacing the tag of line %d by the tag of line %d", e.Line, e.Other)
 	case "subst":
 		return fmt.Sprintf("replacing line %d by a copy of line %d", e.Line, e.Other)
+	case "unquote":
+		return fmt.Sprintf("removing the quotes of string value %d of line %d (it becomes a JSON number / literal)", e.Pos, e.Line)
 	case "wrongkey":
 		return fmt.Sprintf("flipping key bit %d", e.KeyBit)
 	}
@@ -1090,7 +1123,8 @@ func enumerate(thorough bool, menu []entrySpec) (scripts []script, rule string) 
 	// their own (a history containing an entry the verifier cannot handle is reported and its
 	// edits say nothing), plus the end-of-chain look-alike
 	menu4 := pick(menu, "m", "msg:dquote", "msg:end-msg", "msg:integrity-token")
-	menu3 := pick(menu, "m", "msg:dquote", "msg:end-msg")
+	menu3 := pick(menu, "m", "msg:dquote", "msg:end-msg") // used by earlier tiers; kept for the rule text
+	_ = menu3
 	menu2 := pick(menu, "m", "msg:end-msg")
 	type level struct {
 		n        int
@@ -1113,8 +1147,10 @@ func enumerate(thorough bool, menu []entrySpec) (scripts []script, rule string) 
 	}
 	var levels []level
 	if !thorough {
-		levels = []level{{1, menu, all(1)}, {2, menu12, all(2)}, {2, menu, none(2)}, {3, menu3, all(3)}}
-		rule = fmt.Sprintf("quick: histories = {1 entry from the full menu(%d)} x restarts^2 + {2 entries from menu12} x restarts^3 + {2 entries from the full menu, no restart} + {3 entries from menu3} x restarts^4", len(menu))
+		// (pairs from the full menu without restarts and triples over menu3 are left to the thorough tier:
+		// the quick tier has to fit the per-change budget)
+		levels = []level{{1, menu, all(1)}, {2, menu12, all(2)}, {3, menu2, all(3)}}
+		rule = fmt.Sprintf("quick: histories = {1 entry from the full menu(%d)} x restarts^2 + {2 entries from menu12} x restarts^3 + {3 entries from menu2} x restarts^4", len(menu))
 	} else {
 		levels = []level{{1, menu, all(1)}, {2, menu12, all(2)}, {2, menu, [][]string{{""}, restartKinds, restartKinds}},
 			{3, menu4, all(3)}, {3, menu12, none(3)}, {4, menu2, all(4)}}
@@ -1329,7 +1365,7 @@ func main() {
 		r.Sample(caseT{script: scripts[i], Edit: editT{Kind: "all"}})
 	}
 	r.Rule("state = one produced log (distinct bytes) or one edited log (distinct bytes within its log); transition = one run of IntegrityCheckVerifier.VerifyIntegrityCheck; " + rule +
-		"; entry menu = 16 alphabet elements as message, as field name (value v), as field value (name f), plus fields chain=new and chain=end; edits of every produced log = delete each line, swap each adjacent pair, duplicate each line, truncate before each line, replace each tag by each other line's tag, replace each line by a copy of each other line, change every character of every line (auth part / token / tag / chain marker); wrong keys = every single-bit flip of the 256-bit key for histories of <= 1 entry, bits 0 and 255 otherwise; distinct_nontrivial = distinct (format, edit kind/region, line role, outcome class, failing line relative to the edit) and (format, single menu entry, restarts, outcome)")
+		"; entry menu = 16 alphabet elements as message, as field name (value v), as field value (name f), plus fields chain=new and chain=end; edits of every produced log = delete each line, swap each adjacent pair, duplicate each line, truncate before each line, replace each tag by each other line's tag, replace each line by a copy of each other line, change every character of every line (auth part / token / tag / chain marker), JSON: remove the quotes of every string value that reads as a number / true / false / null; wrong keys = every single-bit flip of the 256-bit key for histories of <= 1 entry, bits 0 and 255 otherwise; distinct_nontrivial = distinct (format, edit kind/region, line role, outcome class, failing line relative to the edit) and (format, single menu entry, restarts, outcome)")
 	r.Set("histories", len(scripts))
 	r.Set("menu_entries", len(menu))
 	r.Set("alphabet", func() []string {
